@@ -418,7 +418,55 @@ AGENT_STATIC = [
 ]
 
 AGENT_META = {
-    "trusted_base": [],
-    "assumptions": [],
-    "not_decided": [],
+    "explanation":
+        "agent.da.*: execution::detail::default_agent, the agent behind agent_ref::suspend/resume/abort when the waiter of a pika condition "
+        "variable is a plain OS thread.  M contract on (mtx_, running_, aborted_, suspend_cv_, resume_cv_) with a ghost history (suspensions "
+        "published / wake-ups granted): monitor invariant `running_ == false exactly while one published suspension has not been woken` at every "
+        "release point (also the one inside std::condition_variable::wait); guarantee = net effect of each critical section classified as "
+        "PUBLISH (suspend only, once) / GRANT (resume|abort only, once) / LEAVE; rely = the other party's guarantee.  std cv waits are lowered "
+        "by their definition (`while (!pred()) wait(l)`) and carry loop contracts; the cv stub may return spuriously and has the contract "
+        "precondition 'caller may block' (awaited condition false as seen in the same critical section, publication already announced).  "
+        "agent.da.lemma.*: rely/guarantee side conditions and the pair lemma (one suspend + one resume/abort, every interleaving: inductive "
+        "invariant incl. 'no notification lost', no deadlock state, decreasing variant, exactly one publish and one grant at the end).  "
+        "agent.tls.*: get_default_agent / agent_storage / get_agent_storage / reset_agent / agent() / this_thread::detail::suspend|yield "
+        "with function-local thread_local statics as per-thread objects constructed on first pass.  "
+        "agent.da.suspend.strict and agent.da.sleep_until FAIL on the pinned tree (sticky aborted_; a timed sleep is not a suspension "
+        "that resume() can end) -- see the report.",
+    "trusted_base": [
+        "specs/C07/agent_da.h cv_wait / cv_wait_until / cv_notify_one / cv_notify_all: std::condition_variable as an environment stub -- wait "
+        "releases the mutex and blocks atomically, returns with the mutex re-acquired at the environment's discretion (spurious wake-ups "
+        "allowed, nothing assumed about why it returned); a notification wakes the threads blocked at that moment (used by the lemma only); "
+        "vx/prelude/monitor.h ulock_* (std::unique_lock<std::mutex>; A-LOCK: mutual exclusion trusted)",
+        "specs/C07/agent_da.h da_at_acquire (VX_ASSUME): when mtx_ is (re)acquired the protected state satisfies the monitor invariant and "
+        "differs from the state at the caller's last release by steps admitted by the caller's rely -- justified by the DA_INV obligation at every "
+        "release point of every agent.da.* unit, by agent.da.lemma.rely_guarantee (each party's guarantee step is admitted by the other's rely; "
+        "relies reflexive / transitive) and by ticket uniqueness (assumptions)",
+        "specs/C07/agent_da.h vx_sched_yield / vx_nanosleep / os_sleep / vx_smt_pause: operating system calls (nanosleep: POSIX validity of the "
+        "timespec is an obligation); vx_throw: PIKA_THROW_EXCEPTION leaves the function through the RAII exits; vx_thread_id (opaque)",
+        "specs/C07/agent_tls.c VX_LOCAL_STATIC: a function-local `static thread_local T x;` is one object per thread, constructed the first time "
+        "control passes its declaration ([stmt.dcl]); agent_ref_suspend / agent_ref_yield (virtual dispatch to the designated agent: call-trace stubs)",
+        "agent_spec.py rules _CvWait (predicate waits by their standard definition), _LiftL (loop contracts attached only to loops that exist), "
+        "_ForVar (alpha-renaming of a for-loop counter), _LocalStatic, _DaCtorLift (mem-initialiser lists / delegating constructor as statements), "
+        "_agent_template (per-unit specialisation of the #ifdef U_x blocks of a master template into specs/C07/agent_gen/)",
+    ],
+    "assumptions": [
+        "ticket uniqueness: resume() / abort() is called on a default agent only by a party that dequeued ONE queue entry of that agent (cv.notify_one "
+        "/ cv.notify_all / cv.abort_all: the symbolic entry is resumed / aborted exactly once), and the agent enqueues its next entry only after "
+        "the previous suspension returned: at most one wake-up call per suspension, and no two wake-up calls are in their critical sections at "
+        "the same time (RELY_RESUMER: nobody else grants)",
+        "agent.da.suspend (not *.strict): no abort() was delivered to this thread's agent earlier (aborted_ == false when suspend() is called); "
+        "agent.da.suspend.strict replaces the assumption by the obligation that the aborted suspension clears the flag, and fails on the pinned tree",
+        "only the agent's own thread calls suspend() / sleep_until() on it (PIKA_ASSERT(*this == agent()) in agent_ref::suspend is not lifted here)",
+        "the pair lemma argues termination up to fairness: spurious wake-ups are finitely many between two protocol steps; a thread that can "
+        "make a step eventually makes it",
+    ],
+    "not_decided": [
+        "std::condition_variable / std::mutex themselves (environment); memory ordering beyond the mutex",
+        "more than one suspension / wake-up pair per lemma instance is covered by the ordinal g_k (history counters), but the induction over "
+        "the history is the paper argument of DESIGN 3.4",
+        "a repaired design for timed waits of plain OS threads (agent.da.sleep_until): the candidate shown in the report satisfies this unit's "
+        "obligations but needs cooperation of detail::condition_variable::wait_until to withdraw a timed-out publication",
+        "default_agent::description / context, agent_ref's own PIKA_ASSERTs, this_thread::detail::yield_k / spin_k forwarders and "
+        "check_spinlock_deadlock (inactive in this configuration)",
+    ],
 }
